@@ -567,6 +567,10 @@ impl Template {
             };
 
             match (state, new.0) {
+                // The text read before a `{` comes before whatever the brace turns out to be
+                (Literal, MaybeOpen) if !buf.is_empty() => parts.push(TemplatePart::Literal(
+                    TabExpandedString::new(mem::take(&mut buf).into(), tab_width),
+                )),
                 (MaybeOpen, Key) if !buf.is_empty() => parts.push(TemplatePart::Literal(
                     TabExpandedString::new(mem::take(&mut buf).into(), tab_width),
                 )),
